@@ -10,7 +10,7 @@ use serde::{Deserialize, Serialize};
 use serde_json::Value;
 
 use crate::case::{non_object_json, Face};
-use crate::disk::{Pend, Policy, SimDisk, Xfer};
+use crate::disk::{Fault, Pend, Policy, SimDisk, Xfer};
 use crate::rng::{hash_str, Rng};
 use crate::scen::{case_sig, from_value, shrink_policy, to_value, Ctx, Scenario, Tier};
 use crate::scen_stream::{draw_spec_header, entries_to_crate, header_from_spec};
@@ -137,6 +137,11 @@ impl Scenario for Codec {
         if run == 0 {
             // exactly one input above 16 MiB per batch, through the one-shot helpers
             return to_value(&CodecCase { data: DataSpec { kind: 3, seed: 77, len: (17 << 20) + 1 }, ic: *rng.pick(&[1u8, 2, 4]), path: 0, chunks: Xfer::Full, pol: Policy::plain(), upstream_input: false, pycheck: false, mid_flush: 0, poison: 0 });
+        }
+        if run == 1 || (run == 2 && tier == Tier::Thorough) {
+            // one input just above 2^27 bytes (128 MiB: the largest window a zstd decoder accepts
+            // by default) through the one-shot helpers; thorough adds gzip
+            return to_value(&CodecCase { data: DataSpec { kind: 7, seed: 78, len: (1 << 27) + 1 + rng.below(4000) as u32 }, ic: if run == 1 { 4 } else { 2 }, path: 0, chunks: Xfer::Full, pol: Policy::plain(), upstream_input: false, pycheck: false, mid_flush: 0, poison: 0 });
         }
         let mut kind = match rng.below(15) {
             0 => 0,
@@ -861,19 +866,32 @@ impl Scenario for Rejections {
                 };
                 let refused: bool = match via {
                     0 => no_zero(sut::guard("Directory::from_bytes", || Directory::from_bytes(&enc, comp))?),
-                    1 => {
-                        let mut d = SimDisk::new(enc.clone(), &pol);
-                        let len = enc.len() as u64;
-                        let r = sut::guard("Directory::from_reader", || Directory::from_reader(&mut d, len, comp))?;
-                        ctx.absorb(&d);
-                        no_zero(r)
-                    }
-                    2 => {
-                        let mut d = SimDisk::new(enc.clone(), &pol);
-                        let len = enc.len() as u64;
-                        let r = sut::guard_async("Directory::from_async_reader", Directory::from_async_reader(&mut d, len, comp))?;
-                        ctx.absorb(&d);
-                        no_zero(r)
+                    1 | 2 => {
+                        let parse = |fault: Fault| -> V<(std::io::Result<Directory>, u64, u64)> {
+                            let mut d = SimDisk::new(enc.clone(), &pol).fault(fault);
+                            let len = enc.len() as u64;
+                            let r = if via == 1 { sut::guard("Directory::from_reader", || Directory::from_reader(&mut d, len, comp))? } else { sut::guard_async("Directory::from_async_reader", Directory::from_async_reader(&mut d, len, comp))? };
+                            Ok((r, d.nops(), d.stats().faults_fired))
+                        };
+                        let (r, n_ops, _) = parse(Fault::None)?;
+                        let mut ok = no_zero(r);
+                        // the refusal must also hold when one read of the parse is disturbed: an
+                        // interrupted or timed-out read may fail the call, it must not let the
+                        // offending entry through
+                        let mut frng = Rng::new(seed ^ 0xE1);
+                        let ks: Vec<u64> = if n_ops <= 400 { (0..n_ops).collect() } else { (0..200).map(|_| frng.below(n_ops)).collect() };
+                        for k in ks {
+                            for fault in [Fault::Interrupted { at: k, n: 1 }, Fault::Transient { at: k, n: 1 }] {
+                                let (r, _, fired) = parse(fault)?;
+                                ctx.bump(if matches!(fault, Fault::Interrupted { .. }) { "fired_interrupted_reads" } else { "fired_transient_timeouts" }, fired);
+                                ctx.evals += 1;
+                                if !no_zero(r) {
+                                    ok = false;
+                                    ctx.bump("zero_length_accepted_under_read_fault", 1);
+                                }
+                            }
+                        }
+                        ok
                     }
                     3 => {
                         let meta = spec::compress(ic, b"{}").expect("oracle codec");
